@@ -101,47 +101,28 @@ Theorem C19_parse_total : forall blob,
 Proof. exact parse_index_block_total. Qed.
 Print Assumptions C19_parse_total.
 
-(* REFUTED for the writer path: "corrupted block bytes are rejected without
-   panic or hang".  The block  80 | 0000 | 01  (data = one continuation byte,
-   one restart at 0) passes parseIndexBlock, a writer opens on it, and the
-   section scan of pop(5) makes no progress for ANY amount of fuel
-   (binary.Uvarint returns n = 0, scanSection does `pos += n` unchecked).
-   Replayed on the implementation: harness/c19/finding_test.go. *)
-Theorem C19_corrupt_block_writer_total_refuted :
+(* Historical witness (repaired in /repo commit 2876db98): before the repair
+   scanSection did not look at binary.Uvarint's byte count ([scan_loop false]).
+   The block  80 | 0000 | 01  (data = one continuation byte, one restart at 0)
+   passes parseIndexBlock, a writer opens on it, and the section scan of pop(5)
+   made no progress for ANY amount of fuel.  With the repaired code
+   ([scan_loop true], the one the model's writer uses) the same pop returns the
+   "invalid varint" error class.  The case is in corpus/C19 (a regression shows
+   as "case timed out"). *)
+Theorem C19_old_scan_diverged_on_corrupt_block :
   exists blob d b,
     new_block_writer blob d maxU64 = Ok b /\
-    bw_pop b 5 = Err EFuel /\
-    forall fuel s, scan_loop fuel (bw_data b) 0 1 (search_fn 5) 0 (bw_data b) 0 s = Err EFuel.
+    (forall fuel s, scan_loop false fuel (bw_data b) 0 1 (search_fn 5) 0 (bw_data b) 0 s = Err EFuel) /\
+    bw_pop b 5 = Err EScanVarint.
 Proof.
   exists [128; 0; 0; 1], (mkDesc 5 2 0), (mkBW (mkDesc 5 2 0) [0] [128]).
-  split; [vm_compute; reflexivity|]. split; [vm_compute; reflexivity|].
-  exact corrupt_scan_diverges.
+  split; [vm_compute; reflexivity|]. split; [exact corrupt_scan_diverges|vm_compute; reflexivity].
 Qed.
-Print Assumptions C19_corrupt_block_writer_total_refuted.
+Print Assumptions C19_old_scan_diverged_on_corrupt_block.
 
-(* non-vacuity: 260 ids spanning two restart sections are appended under the
-   guards (so the state is reachable: build_reach), read back, and popped
-   across the section boundary; the round trip holds on the concrete bytes *)
-Example C19_nonvacuous :
-  let ids := map (fun i => 1000 + 300 * N.of_nat i) (seq 0 260) in
-  match build ids (mkBW (mkDesc 0 0 0) [] []) with
-  | Some b =>
-      bw_abs b = ids /\ length (bw_restarts b) = 2%nat /\
-      parse_index_block (bw_finish b) = Ok (bw_restarts b, bw_data b) /\
-      match bw_pop b 78700 with
-      | Ok b1 => bw_abs b1 = removelast ids /\
-                 match build [78401; 78402; 78403] b1 with
-                 | Some b2 =>
-                     match bw_pop b2 78403 with
-                     | Ok b3 => match bw_pop b3 78402 with
-                                | Ok b4 => match bw_pop b4 78401 with
-                                           | Ok b5 => length (bw_restarts b5) = 2%nat /\ bw_abs b5 = firstn 259 ids
-                                           | Err _ => False end
-                                | Err _ => False end
-                     | Err _ => False end
-                 | None => False end
-      | Err _ => False
-      end
-  | None => False
-  end.
-Proof. vm_compute. repeat split. Qed.
+(* non-vacuity: [nonvac_check] (PathDB/IndexProofs.v) appends 260 ids spanning
+   two restart sections under the guards of bw_reach (build_reach), checks the
+   decoded ids, the restart count and the finish/parse round trip on the
+   concrete bytes, and pops five ids across the section boundary *)
+Example C19_nonvacuous : nonvac_check = true.
+Proof. vm_compute. reflexivity. Qed.
